@@ -426,6 +426,32 @@ def deepcopy_check(chk, W):
                     if y.parent is not x:
                         return f"deep copy of sequence {q}: a listed unit does not name the copy as parent"
                     stack.append(y)
+            # the copy is a sequence like any other: edits go on, on the copy and on the copied inner sequences (also after the original is gone from view)
+            from pyroll.core import Transport
+            seqs, stack = [], [c]
+            while stack:
+                x = stack.pop()
+                if isinstance(x, PassSequence):
+                    seqs.append(x)
+                stack.extend(x.subunits)
+            for k, x in enumerate(seqs):
+                new = [Transport(label=f"added{k}{j}", duration=1) for j in range(4)]
+                how = ('append', 'prepend', 'extend', 'item assignment')[k % 4]
+                if how == 'append':
+                    x.append(new[0])
+                elif how == 'prepend':
+                    x.prepend(new[0])
+                elif how == 'extend':
+                    lst = x.subunits
+                    lst += new[1:3]
+                elif len(x.subunits):
+                    x.subunits[0] = new[3]
+                else:
+                    x.subunits.insert(0, new[3])
+                for y in x.subunits:
+                    if y.parent is not x:
+                        return (f"deep copy of sequence {q}, then {how} on {'the copy' if x is c else 'a copied inner sequence'}: the listed unit {y.label!r} names "
+                                f"{'the ORIGINAL sequence' if any(y.parent is o for o in W.objs.values()) else 'none' if y.parent is None else 'another sequence'} as parent")
     # a deep copy of a unit taken on its own (a pass out of a sequence, an inner sequence out of an outer one): the copy is a unit like any other -
     # it names a parent only if that parent lists it, and never reaches into the original tree
     for u in W.order:
